@@ -45,6 +45,10 @@ def configs(tier):
                             c = {"role": role, "failByDrop": fbd, "echo": echo, "cht": cht,
                                  "sdt": sdt, "start": start}
                             out.append(c)
+    # applications sending with the frame-based streaming API
+    for role in ("server", "client"):
+        out.append({"role": role, "failByDrop": False, "echo": False, "cht": 1, "sdt": 1,
+                    "start": "open", "stream": True})
     # server whose onConnect answers asynchronously: the peer may be gone before the answer
     out.append({"role": "server", "failByDrop": False, "echo": False, "cht": 1, "sdt": 1,
                 "start": "connecting", "dconn": True})
@@ -94,7 +98,8 @@ def main(ctx):
               "reached:closeframe_sent", "reached:own_drop_delivered", "reached:data_after_our_close_ignored",
               "reached:sendclose_while_closing", "reached:connecting_lost",
               "reached:deferred_onconnect_resolved_late", "reached:queued_write",
-              "reached:frames_behind_peer_close", "reached:prepared_message", "reason_cases", "code_cases", "code_echoed", "code_rejected",
+              "reached:frames_behind_peer_close", "reached:prepared_message", "reached:streaming_api",
+              "reached:stream_ended_while_not_open", "local_close_code_cases", "reason_cases", "code_cases", "code_echoed", "code_rejected",
               "close_inside_open_text_message"):
         ctx.require(n)
 
@@ -167,12 +172,25 @@ class Sys:
             # made from callbacks that were queued earlier.
             ev.append("settle")
             if p.state in (S_OPEN, S_CLOSING, S_CLOSED) and self.hs_done_len:
-                ev += ["sendClose", "sendClose3000r", "sendMessage", "sendMessageSync", "sendPrepared",
-                       "sendPing"]
+                if self.cfg.get("stream"):
+                    ev += ["sendClose", "sendPing"] + (["stream:frame", "stream:end"] if p.send_state == 2 else [])
+                else:
+                    ev += ["sendClose", "sendClose3000r", "sendMessage", "sendMessageSync", "sendPrepared",
+                           "sendPing"]
             return ev
         if p.state in (S_OPEN, S_CLOSING, S_CLOSED) and self.hs_done_len:
-            ev += ["sendClose", "sendClose1000", "sendClose3000r", "sendCloseLong", "sendMessage",
-                   "sendMessageSync", "sendPrepared", "sendPing"]
+            if self.cfg.get("stream"):
+                # an application that sends with the frame-based streaming API (in place of the
+                # message-level variants, to keep the branching factor)
+                # (a message-level send while a streamed message is open is an application error)
+                ev += ["sendClose", "sendClose3000r", "sendPing"] + (["sendMessage"] if p.send_state == 0 else [])
+                if p.send_state == 0 and p.state == S_OPEN:
+                    ev.append("stream:begin+frame")
+                elif p.send_state == 2:
+                    ev += ["stream:frame", "stream:end"]
+            else:
+                ev += ["sendClose", "sendClose1000", "sendClose3000r", "sendCloseLong", "sendMessage",
+                       "sendMessageSync", "sendPrepared", "sendPing"]
         if reading:
             if p.state == S_CONNECTING and not self.hs_done_len and not self.hs_fed:
                 ev += ["peer:handshake", "peer:garbage-handshake"]
@@ -254,6 +272,17 @@ class Sys:
                         raise
                     if len(self.t.written) != pre_written:
                         self.api_errors.append("sendMessage raised Disconnected but wrote octets")
+            elif ev.startswith("stream:"):
+                self.notes.add("streaming_api")
+                if ev == "stream:begin+frame":
+                    p.beginMessage(True)
+                    p.sendMessageFrame(b"part-1")
+                elif ev == "stream:frame":
+                    p.sendMessageFrame(b"part-n")
+                else:
+                    p.endMessage()
+                    if p.state != S_OPEN:
+                        self.notes.add("stream_ended_while_not_open")
             elif ev == "app:connect-ok":
                 import txaio
                 self.connect_resolved = True
@@ -719,7 +748,52 @@ def job_reasons(a):
                                 role, env.get("fw"), mode, k, ch, pad, prob[1]),
                                 "replay": {"env": {"fw": env.get("fw"), "nvx": "1"},
                                            "func": "props.c05:job_reasons", "arg": a}})
-    return {"evals": n, "viol": viol, "stats": {"reason_cases": n}}
+    # ---- status codes handed to the LOCAL sendClose(): refused locally (nothing written), or exactly
+    # that code on the wire - and then it is one the API documents (1000, 3000-4999)
+    import struct
+    menu = list(range(0, 1100)) + list(range(2990, 3011)) + list(range(4990, 5011)) + \
+        [65535, 65536, -1, -1000, False, True, 1000.0, "1000", b"\x03\xe8", 2 ** 31, None]
+    nloc = 0
+    for code in menu:
+        for reason in (None, "bye"):
+            if code is None and reason is not None:
+                continue
+            ep = ws.open_endpoint(role, {"failByDrop": False})
+            start = len(ep.t.written)
+            raised = None
+            try:
+                ep.proto.sendClose(code, reason) if reason is not None else ep.proto.sendClose(code)
+            except Exception as e:
+                raised = e
+            ep.conn.settle()
+            nloc += 1
+            out = bytes(ep.t.written[start:])
+            frames, used = F.parse_frames(out)
+            closes = [f for f in frames if f.opcode == 8]
+            prob = None
+            if raised is not None:
+                if out:
+                    prob = ("local-close-refused-but-written", "%r raised and %d octets written" % (raised, len(out)))
+            elif used != len(out) or len(closes) != 1 or len(frames) != 1:
+                prob = ("local-close-frames", "sendClose(%r) wrote %d frames (%d close)" % (code, len(frames), len(closes)))
+            else:
+                pl = closes[0].payload
+                wire_code = struct.unpack("!H", pl[:2])[0] if len(pl) >= 2 else None
+                if code is None:
+                    if pl:
+                        prob = ("local-close-payload", "sendClose() wrote payload %s" % pl.hex())
+                elif len(pl) < 2 or type(code) is not int or wire_code != code or \
+                        not (code == 1000 or 3000 <= code <= 4999):
+                    prob = ("illegal-local-close-code", "sendClose(%r%s) was accepted and wrote a close frame with "
+                            "payload %s (status %r)" % (code, "" if reason is None else ", %r" % reason, pl.hex(), wire_code))
+            if prob:
+                sig = "C05|%s|sendClose|%s" % (prob[0], role)
+                seen[sig] = seen.get(sig, 0) + 1
+                if seen[sig] <= 2:
+                    viol.append({"sig": sig, "desc": "[%s fw=%s] %s" % (role, env.get("fw"), prob[1]),
+                                 "replay": {"env": {"fw": env.get("fw"), "nvx": "1"},
+                                            "func": "props.c05:job_reasons", "arg": a}})
+    return {"evals": n + nloc, "viol": viol, "stats": {"reason_cases": n, "local_close_code_cases": nloc}}
 
 
 def job_codes(a):
